@@ -31,7 +31,7 @@ structure St where
   /-- `none`: no account set decoded yet in this instruction; `some v`: decoded, holding `v`. -/
   wrapper : Option (Option Val)
   /-- the account holds no lamports (closed earlier in this instruction) -/
-  drained : Bool
+  lam : LamState
 
 def parseKind : String → Option Kind
   | "zc" => some .zc | "fix" => some .fix | "var" => some .var
@@ -103,6 +103,7 @@ def showErr : Err → String
   | .notEnoughAccounts => "err:Custom9004"
   | .createAttempted => "err:CreateAttempted"
   | .panicked => "panic"
+  | .invalidArgument => "err:InvalidArgument"
 
 def showUnit : Except Err Unit → String
   | .ok () => "ok"
@@ -158,7 +159,7 @@ def stepSt (s : St) (toks : List String) : Option St × String :=
   | [op] =>
     if op = "bytes" then (some s, s!"{s.a.data.length} {toHex s.a.data}")
     else if op = "next" then
-      (some { s with a := nextIx s.a, wrapper := none, drained := false }, "ok")
+      (some { s with a := nextIx s.a, wrapper := none, lam := LamState.plenty }, "ok")
     else if op = "client" then
       if borsh then
         match clientDeserialize c s.t s.a.data with
@@ -170,44 +171,60 @@ def stepSt (s : St) (toks : List String) : Option St × String :=
     | none => bad (some s)
     | some val =>
       let b : BAcct Val := { acct := s.a, val := val }
-      let fin (r : Except Err (BAcct Val)) (drain : Bool) : Option St × String :=
+      let fin (r : Except Err (BAcct Val)) (_drain : Bool) : Option St × String :=
         match r with
-        | .ok b' => (some { s with a := b'.acct, wrapper := some b'.val, drained := s.drained || drain }, "ok")
+        | .ok b' => (some { s with a := b'.acct, wrapper := some b'.val }, "ok")
         | .error e => (some s, showErr e)
       -- a cleanup leaves its state even when it fails (e.g. `NormalizeRent(())` without a funder
-      -- has already written the value back)
-      let finFull (r : BAcct Val × Except Err Unit) (drain : Bool) : Option St × String :=
+      -- has already written the value back); `lam'` = the balance a SUCCESSFUL cleanup leaves
+      let finFull (r : BAcct Val × Except Err Unit) (lam' : LamState) : Option St × String :=
         let b' := r.1
         match r.2 with
-        | .ok () => (some { s with a := b'.acct, wrapper := some b'.val, drained := s.drained || drain }, "ok")
+        | .ok () => (some { s with a := b'.acct, wrapper := some b'.val, lam := lam' }, "ok")
         | .error e => (some { s with a := b'.acct, wrapper := some b'.val }, showErr e)
       let rentOf (name : String) : Option RentOp :=
         if name = "normalize" then some .normalize
         else if name = "receive" then some .receive
         else if name = "refund" then some .refund else none
-      let cl : Option (Cleanup) :=
-        if op = "cleanup" then some .dflt
-        else if op = "close" then some (.close true)
-        else if op = "close_nr" then some (.close false)
+      -- the size the rent adjustment sees: after the write-back (zero-copy accounts: unchanged)
+      let lenAfter : Nat :=
+        if borsh then
+          match serializeBack c s.t b with
+          | .ok b' => b'.acct.data.length
+          | .error _ => s.a.data.length
+        else s.a.data.length
+      let fails := s.lam.refundFails lenAfter
+      let cl : Option (Cleanup × Option RentOp) :=
+        if op = "cleanup" then some (.dflt, none)
+        else if op = "close" then some (.close true, none)
+        else if op = "close_nr" then some (.close false, none)
         else
           match op.splitOn "_" with
-          | [n] => (rentOf n).map (fun r => .rent r .arg s.drained)
-          | [n, "c"] => (rentOf n).map (fun r => .rent r .cached s.drained)
-          | [n, "cm"] => (rentOf n).map (fun r => .rent r .cachedMissing s.drained)
+          | [n] => (rentOf n).map (fun r => (.rent r .arg fails, some r))
+          | [n, "c"] => (rentOf n).map (fun r => (.rent r .cached fails, some r))
+          | [n, "cm"] => (rentOf n).map (fun r => (.rent r .cachedMissing fails, some r))
           | _ => none
       match cl with
-      | some k =>
-        if borsh then finFull (cleanupFull c s.t k b) (k == .close true)
+      | some (k, rop) =>
+        let lam' : LamState :=
+          match k, rop with
+          | .close _, _ => .zero
+          | _, some r => lamNext r s.lam lenAfter
+          | _, none => s.lam
+        if borsh then finFull (cleanupFull c s.t k b) lam'
         else
           -- `Account<T>`: no write-back in any variant; the rent variants touch lamports only
           match k with
           | .dflt => (some s, "ok")
           | .rent r who d =>
             if who = .cachedMissing then (some s, showErr r.missing)
-            else (some s, showUnit (rentTail r d))
+            else
+              match rentTail r d with
+              | .ok () => (some { s with lam := lam' }, "ok")
+              | .error e => (some s, showErr e)
           | .close r =>
             match cleanupClose s.t r s.a with
-            | .ok a' => (some { s with a := a', drained := true }, "ok")
+            | .ok a' => (some { s with a := a', lam := .zero }, "ok")
             | .error e => (some s, showErr e)
       | none =>
         if !borsh then bad (some s)
@@ -257,7 +274,7 @@ def step (s : Option St) (toks : List String) : Option St × String :=
       if knownType k pid disc then
         let t : PType := { progId := pid, disc := disc, body := if k = .zc ∨ k = .un then 2 else 0 }
         let a : Acct := { owner, data, writable := w, borrow := Borrow.free, orig := data.length }
-        (some { kind := k, t, a, wrapper := none, drained := false }, "ok")
+        (some { kind := k, t, a, wrapper := none, lam := LamState.plenty }, "ok")
       else bad s
     | _, _, _, _, _, _ => bad s
   | _ =>
